@@ -47,6 +47,17 @@ def plan(seed, subbatch):
         a = cfg.choice(mult)
         tfs += [a, a, cfg.choice(mult)]
     members = sample_members(cfg, cfg.randint(1, 4), tfs, max_period=8)
+    if level_tf:
+        # settings bake the inherited Hexital-level timeframe into the name on a rebuild ("EMA_5" comes
+        # back as "EMA_5_T5"): two members that differ only by an explicit vs inherited level timeframe
+        # are the same effective indicator and cannot coexist after a restart - keep effective names distinct
+        seen, keep = set(), []
+        for m in members:
+            eff = member_name(dict(m, common=dict(m["common"], timeframe=m["common"].get("timeframe") or level_tf)))
+            if eff not in seen:
+                seen.add(eff)
+                keep.append(m)
+        members = keep
     forms = [cfg.choice(FORMS) for _ in members]
     hexcfg = {"timeframe": level_tf, "timeframe_fill": cfg.random() < 0.3,
               "candlestick_type": "HA" if cfg.random() < 0.3 else None}
